@@ -54,6 +54,9 @@ MCInit == Init /\ MonInit /\ env = [nreq |-> 0, nfault |-> 0, ncall |-> 0, nupd 
 
 Bump(f) == env' = [env EXCEPT ![f] = @ + 1]
 
+\* how the program reacts to close(): a generator suspended inside a try block that has a clean-up block yields again
+EnvPos == IF \E i \in 1..Len(S.gens) : S.gens[i].k = "env" THEN S.gens[CHOOSE i \in 1..Len(S.gens) : S.gens[i].k = "env"].p.at ELSE 0
+CloseReact == IF HasCleanup /\ InTry(EnvPos) THEN "raise:Err:RuntimeError" ELSE "closed"
 LoopQuiet == S.cbq = <<>> /\ S.susq = <<>> /\ S.pendRet = <<>>
 MCNext ==
   \/ /\ S.pc = "fetch" /\ LoopQuiet
@@ -68,7 +71,7 @@ MCNext ==
   \* (REMC follows the discipline of the harness, on which the monitors' accounting of suspender trips relies: what a
   \*  suspender operation has scheduled on the loop lands before the run task takes its next step; RE.tla itself allows
   \*  the run task to step in between -- RETrace would accept such a trace)
-  \/ LoopQuiet /\ (Start \/ Top \/ Wake \/ AfterSleep0 \/ (\E b \in BOOLEAN : DeliverCancel(b)) \/ CmdDone \/ Exit \/ TailStep \/ Finally \/ AOpsStep \/ AOpsCancel) /\ UNCHANGED env
+  \/ LoopQuiet /\ (Start \/ Top \/ Wake \/ AfterSleep0 \/ (\E b \in BOOLEAN : DeliverCancel(b)) \/ CmdDone \/ Exit \/ TailStep \/ Finally(CloseReact) \/ AOpsStep(CloseReact) \/ AOpsCancel) /\ UNCHANGED env
   \/ /\ env.nreq < MaxReq
      /\ \/ "pause" \in ReqKinds /\ ReqPause(FALSE) /\ Bump("nreq")
         \/ "defer" \in ReqKinds /\ ReqPause(TRUE) /\ Bump("nreq")
